@@ -90,11 +90,12 @@ func ApplyInclude(ctx context.Context, workingDir string, environment types.Mapp
 						relworkingdir = r.ProjectDirectory
 
 					}
-					for _, f := range included {
-						if f == path {
-							included = append(included, path)
-							return fmt.Errorf("include cycle detected:\n%s\n include %s", included[0], strings.Join(included[1:], "\n include "))
-						}
+				}
+				// any file of the entry (the main one or an override) already being loaded is a cycle
+				for _, f := range included {
+					if f == path {
+						included = append(included, path)
+						return fmt.Errorf("include cycle detected:\n%s\n include %s", included[0], strings.Join(included[1:], "\n include "))
 					}
 				}
 			}
